@@ -93,7 +93,19 @@ func (fx *fctx) callExternal(st *State, fn *types.Func, recv *Value, recvExpr as
 			e.Assumptions["strings.Repeat(s, n) has length len(s)*n"] = true
 		}
 		return r
-	case "fmt.Sprint", "strings.Join", "strings.TrimSpace", "strings.TrimRightFunc", "strings.ToLower":
+	case "strings.TrimRightFunc", "strings.TrimRight", "strings.TrimSuffix":
+		// the result is a prefix of the argument
+		if len(args) >= 1 && args[0].Tm != nil && args[0].Tm.Sort == SStr {
+			k := ts.Fresh("trim", SInt)
+			ln := ts.App("str_len", SInt, args[0].Tm)
+			st.assume(ts.And(ts.Le(ts.Int(0), k), ts.Le(k, ln)))
+			r := ts.App("str_sub", SStr, args[0].Tm, ts.Int(0), k)
+			st.assume(ts.Eq(ts.App("str_len", SInt, r), k))
+			e.Assumptions["strings.TrimRight*/TrimSuffix return a prefix of their argument"] = true
+			return []*Value{{T: sig.Results().At(0).Type(), Tm: r}}
+		}
+		return results()
+	case "fmt.Sprint", "strings.Join", "strings.TrimSpace", "strings.ToLower":
 		r := results()
 		return r
 	case "unicode/utf8.DecodeRune", "unicode/utf8.DecodeRuneInString":
